@@ -15,6 +15,7 @@ package heap
 //@ ufun keyOf(x) HKey
 //@ ghost func.N gmap[HKey]int
 //@ ghost func.tracks bool
+//@ ghost func.want bool
 //@ ghost func.base seq[T]
 //@ ghost func.bn int
 //@ ghost func.gone int
@@ -195,6 +196,7 @@ package heap
 //@ func New
 //@   props C05
 //@   requires less != nil && indexChanged != nil && swoF(less, initial)
+//@   requires indexChanged.want ==> distinctKeys(initial)
 //@   modifies elems(initial), indexChanged.N, indexChanged.f, indexChanged.g, indexChanged.base, indexChanged.bn, indexChanged.gone, indexChanged.lo, indexChanged.tracks
 //@   ghostinit indexChanged.tracks := false
 //@   ghostinit indexChanged.base := lambda j int :: initial[j]
@@ -207,12 +209,12 @@ package heap
 //@   loop 0: invariant mapsTo(h) && !indexChanged.tracks
 //@   loop 0: invariant forall j int {h.a[j]} :: 0 < j && j < len(h.a) && (j-1)/2 > i ==> ordAt(h, j)
 //@   loop 1: invariant h.a == initial && h.lessFn == less && h.indexChanged == indexChanged && h.gen == 0 && heapOK(h) && mapsTo(h) && !indexChanged.tracks
-//@   loop 1: invariant old(distinctKeys(initial)) ==> distinctKeys(h.a)
-//@   loop 1: invariant old(distinctKeys(initial)) ==> (forall k int {h.a[k]} :: 0 <= k && k < idx1 ==> indexChanged.N[keyOf(h.a[k])] == k)
+//@   loop 1: invariant indexChanged.want ==> distinctKeys(h.a)
+//@   loop 1: invariant indexChanged.want ==> (forall k int {h.a[k]} :: 0 <= k && k < idx1 ==> indexChanged.N[keyOf(h.a[k])] == k)
 //@   ghost indexChanged.tracks := false
 //@   ensures result.a == initial && result.lessFn == less && result.indexChanged == indexChanged && result.gen == 0
 //@   ensures heapOK(result) && mapsTo(result) && indexChanged.bn == len(initial) && indexChanged.gone == -1
-//@   ensures !indexChanged.tracks && (old(distinctKeys(initial)) ==> syncedAll(result))
+//@   ensures !indexChanged.tracks && (indexChanged.want ==> syncedAll(result))
 //@   ensures forall j int {indexChanged.base[j]} :: 0 <= j && j < len(initial) ==> indexChanged.base[j] == old(initial[j])
 
 //@ func Heap.Grow
